@@ -128,6 +128,10 @@ func (r result) all() string { return r.stdout + "\n" + r.stderr }
 
 // ---------------------------------------------------------------- running one job
 
+// every child runs under an address-space limit: a program that asks for gigabytes (LPAD(s, 2147483647, 'x'))
+// must not take the machine down; running out of memory under the limit is counted, not reported as a law
+const limitSh = "ulimit -v 3000000; "
+
 var (
 	bin     string
 	scratch string
@@ -180,11 +184,11 @@ func execJob(j *job) result {
 	if j.RemovedCwd {
 		gone := filepath.Join(d, "gone")
 		must(os.Mkdir(gone, 0o755))
-		sh := `cd "$1" && rmdir "$1" && shift && exec "$@"`
+		sh := limitSh + `cd "$1" && rmdir "$1" && shift && exec "$@"`
 		cmd = exec.Command("/bin/sh", append([]string{"-c", sh, "sh", gone, bin}, args...)...)
 		cmd.Dir = d
 	} else {
-		cmd = exec.Command(bin, args...)
+		cmd = exec.Command("/bin/sh", append([]string{"-c", limitSh + `exec "$@"`, "sh", bin}, args...)...)
 		cmd.Dir = d
 	}
 	cmd.Env = []string{"HOME=" + d, "PATH=/usr/bin:/bin", "TZ=UTC", "LANG=C"}
@@ -308,13 +312,34 @@ func has(tags []string, t string) bool {
 
 // classify returns the law names the run violates (empty = clean ending) — most specific first.
 func classify(j *job, r result) []string {
-	var laws []string
+	laws, _ := judge(j, r)
+	return laws
+}
+
+var reHugeFrame = regexp.MustCompile(`(?i)\b\d{10,}\s+(PRECEDING|FOLLOWING)`)
+
+// judge: the laws violated, and observations that are counted but are not violations of C19.
+func judge(j *job, r result) (laws []string, notes []string) {
 	out := r.all()
+	if strings.Contains(out, "out of memory") || strings.Contains(out, "cannot allocate memory") {
+		// the program asked for more memory than the harness allows a child (ulimit -v): resource exhaustion
+		return nil, []string{"observed:out_of_memory_under_the_harness_limit(not a law)"}
+	}
 	if r.timedOut {
 		if j.BlockOK {
-			return nil
+			return nil, []string{"observed:blocked_on_fifo_without_writer(OS semantics, not a law)"}
 		}
-		laws = append(laws, "hang:"+j.Group)
+		prog := j.program()
+		switch {
+		case reHugeFrame.MatchString(prog):
+			laws = append(laws, "hang:window_frame_huge_offset")
+		default:
+			t := j.Group
+			if len(j.Tags) > 0 {
+				t = j.Tags[0]
+			}
+			laws = append(laws, "hang:"+t)
+		}
 	}
 	raw := strings.Contains(out, "panic:") || strings.Contains(out, "goroutine ") && strings.Contains(out, "[running]") ||
 		strings.Contains(out, "fatal error:")
@@ -324,11 +349,11 @@ func classify(j *job, r result) []string {
 			frames = append(frames, m[1])
 		}
 		switch {
+		case strings.Contains(out, "stack overflow") || strings.Contains(out, "stack exceeds"):
+			laws = append(laws, "panic:stack_overflow:"+firstOwnFrame(frames))
 		case strings.Contains(out, "created by github.com/mithrandie/csvq/lib/query.") && !strings.Contains(out, "fatal error:"):
 			// a worker goroutine died outside any recover(): the guard `if !gm.HasError()` skipped it
 			laws = append(laws, "panic:unrecovered_worker")
-		case strings.Contains(out, "stack overflow") || strings.Contains(out, "stack exceeds"):
-			laws = append(laws, "panic:stack_overflow:"+firstOwnFrame(frames))
 		default:
 			laws = append(laws, "panic:other:"+firstOwnFrame(frames))
 		}
@@ -370,11 +395,16 @@ func classify(j *job, r result) []string {
 		}
 	}
 	if j.Probe == "json_rect" && r.rc == 0 && len(laws) == 0 {
-		if why := jsonRect(r.stdout); why != "" {
-			laws = append(laws, "nonrectangular:json_output:"+why)
+		switch why := jsonRect(r.stdout); why {
+		case "":
+		case "keys_differ":
+			laws = append(laws, "nonrectangular:json_output")
+		default:
+			// malformed JSON on stdout is a defect of the encoder (property C02's ground), not of rectangularity
+			notes = append(notes, "observed:json_output_"+why+"(not a C19 law)")
 		}
 	}
-	return laws
+	return laws, notes
 }
 
 // jsonRect: "" if s is a JSON array of objects all having the same ordered key list.
@@ -509,6 +539,10 @@ func repro(j *job) string {
 		switch f.Kind {
 		case "":
 			d := f.Data
+			if f.Name == "big.csv" && bytes.Equal(d, bigCSV()) {
+				sb.WriteString(" && " + bigAwk + " > big.csv")
+				continue
+			}
 			if len(d) > 1500 {
 				sb.WriteString(fmt.Sprintf(" && : '%s: %d bytes, first 1500 shown'", f.Name, len(d)))
 				d = d[:1500]
@@ -536,6 +570,14 @@ func repro(j *job) string {
 		sb.WriteString(" " + shq(a))
 	}
 	return sb.String()
+}
+
+func shJoin(args []string) string {
+	q := make([]string, len(args))
+	for i, a := range args {
+		q[i] = shq(a)
+	}
+	return strings.Join(q, " ")
 }
 
 func trunc(s string, n int) string {
@@ -673,6 +715,7 @@ func run(seed int64, n int, dir string, _ []string) {
 	jobs = append(jobs, dataJobs(g, n*30/100)...)
 
 	// ---- run (parallel) ----
+	t0 := time.Now()
 	workers := runtime.NumCPU()
 	if workers > 32 {
 		workers = 32
@@ -698,6 +741,9 @@ func run(seed int64, n int, dir string, _ []string) {
 	close(idx)
 	wg.Wait()
 
+	fmt.Fprintf(os.Stderr, "c19: %d jobs run in %.1fs with %d workers\n", len(jobs), time.Since(t0).Seconds(), workers)
+	t0 = time.Now()
+
 	// ---- judge (sequential, in generation order) ----
 	firstOf := map[string]int{}
 	var order []string
@@ -712,15 +758,15 @@ func run(seed int64, n int, dir string, _ []string) {
 		if r.rc != 0 && !r.timedOut {
 			o.Count("error_class:" + errClass(r))
 		}
-		laws := classify(j, r)
+		laws, notes := judge(j, r)
+		for _, nt := range notes {
+			o.Count(nt)
+		}
 		if j.InProc != nil && r.rc == 0 && len(laws) == 0 {
 			if why := j.InProc.check(j); why != "" {
 				laws = append(laws, "nonrectangular:"+why)
 			}
 			o.Count("inprocess_rect_probe")
-		}
-		if r.timedOut && j.BlockOK {
-			o.Count("observed:blocked_on_fifo_without_writer(OS semantics, not a law)")
 		}
 		sig := j.Group + ":" + strings.Join(sigTags(j.Tags), ",") + fmt.Sprintf(":%d", r.rc)
 		o.NonTrivial(sig)
@@ -736,16 +782,23 @@ func run(seed int64, n int, dir string, _ []string) {
 		}
 	}
 
+	fmt.Fprintf(os.Stderr, "c19: judged in %.1fs, %d distinct laws\n", time.Since(t0).Seconds(), len(order))
+	t0 = time.Now()
+	defer func() { fmt.Fprintf(os.Stderr, "c19: shrunk in %.1fs\n", time.Since(t0).Seconds()) }()
+
 	// ---- shrink and report each distinct law once (the count of occurrences is in the stats) ----
 	for _, l := range order {
 		j := jobs[firstOf[l]]
 		tries := 1
-		if strings.HasPrefix(l, "panic:") || strings.HasPrefix(l, "hang:") {
-			tries = 6
+		if strings.HasPrefix(l, "panic:") {
+			tries = 6 // which worker panics second depends on the schedule
 		}
-		budget := 400
+		budget := 300
 		if strings.HasPrefix(l, "hang:") {
-			budget = 12
+			// a candidate that still runs after 4 s counts as still hanging
+			j = j.clone()
+			j.Timeout = 4 * time.Second
+			budget = 8
 		}
 		m := shrink(j, l, tries, budget)
 		r := execJob(m)
@@ -756,6 +809,7 @@ func run(seed int64, n int, dir string, _ []string) {
 			m, r = j, results[firstOf[l]]
 		}
 		o.Law(l, map[string]interface{}{
+			"command":     "csvq " + shJoin(m.argv()),
 			"reproduce":   repro(m),
 			"exit_code":   r.rc,
 			"stdout":      trunc(r.stdout, 500),
